@@ -625,6 +625,14 @@ _tag_quick("C18", [r"^C07/insufficient$", r"^C01/gen/(pawn-enpassant|pawn-simple
                    r"^C06/semilegal/(PawnDouble|Enpassant|CastlingKingside)/[wb]$", r"^C03/make/(Enpassant|PawnDouble)/[wb]$",
                    r"^C16/attackers/", r"^C15/castling/masks$", r"^C15/pawns/advances$", r"^C20/geometry/ranks-deltas$"])
 
+# functions a property's statement depends on directly although another property owns their contract
+_tag_quick("C05", [r"^C03/make/"])                    # occupancy sets after make / unmake
+_tag_quick("C13", [r"^C03/make/"])                    # push / pop are make / unmake
+_tag_quick("C14", [r"^C05/hash-delta/"])              # repetition counting compares stored hashes
+_tag_quick("C10", [r"^C06/semilegal/", r"^C06/well-formed$"])   # the UCI reader accepts iff the validator does
+_tag_quick("C09", [r"^C01/gen/dispatch$", r"^C07/legal-filter$"])
+_tag_quick("C07", [r"^C01/gen/dispatch$"])
+
 # C19: for every unsafe site the cheapest quick obligation that executes it (thorough: all of them)
 _c19 = {"C19/unsafe-site-map", "C19/capacity-witnesses"}
 _ids = {o["id"]: o for o in OBS}
@@ -632,6 +640,10 @@ for _key, (_n, _obl, _note) in _um.MAP.items():
     _cand = [i for i in _obl if i in _ids and _ids[i]["tier"] == "quick"]
     if _cand:
         _c19.add(min(_cand, key=lambda i: (EXPECT.get(i, 300), i)))
+_c19.add("C11/try-from/accepts")       # validation is where out-of-range raw input is turned away
+for _o in OBS:
+    if _o["id"] == "C11/try-from/accepts" and "C19" not in _o["props"]:
+        _o["props"].append("C19")
 for _o in OBS:
     if "C19" in _o["props"] and _o["tier"] == "quick":
         _qf = _o.get("quick_for")
